@@ -58,3 +58,43 @@ REG.contract('C18', M, 'TAPParser.parse_line', variant='end', params={'self': Ta
              requires=['tap_inv(self)'],
              ensures=[f"count({E}, 'Error') == nerr_end(self)", f"len({E}) == count({E}, 'Error')"],
              floor=8, note='end of stream')
+
+# ---- TestRunTAP.parse: the verdict of the whole TAP test is a fold over the parser's events.  Three regions of the function
+# (the event loop, the all-skipped rule, the final assignment); the tail that formats warnings is not under contract.
+try:
+    from specs.taprun import Event
+    from specs.mtest import TR
+    from pyvc.api import Dict as _D
+    if REG.lookup(M, 'TestResult.is_bad') is None:      # also under contract for C12 (contracts/mtest.py): same clause
+        REG.contract('C18', M, 'TestResult.is_bad', params={'self': TR}, ensures=['result == (bad(self))'], pure_expr='bad(self)', result=Bool, floor=1)
+    RunS = Struct('TestRunTAP', 'mesonbuild.mtest:TestRunTAP', results=List(Event), additional_error=Str, res=TR)
+    CODE = "(0 if final('res') is None else (1 if final('res') is TestResult.FAIL else (2 if final('res') is TestResult.ERROR else 3)))"
+    REG.contract('C18', M, 'TestRunTAP.parse', variant='event-loop', region=('AsyncFor', 'parse_async'),
+                 params={'self': RunS, 'harness': Obj, 'lines': Obj, 'res': Const(None), 'warnings': List(Event), 'version': Int},
+                 requires=['len(self.results) == 0'],
+                 ensures=[f"{CODE} == tapres([e for e in __trace__ if e[0] == 'parse_async'][0][-1], len([e for e in __trace__ if e[0] == 'parse_async'][0][-1]))",
+                          "len(new(self).results) <= len([e for e in __trace__ if e[0] == 'parse_async'][0][-1])",
+                          "implies(final('res') is not None and final('res') is TestResult.FAIL, anybadres(new(self).results, len(new(self).results)))"],
+                 loops={0: Loop(invariant=["(0 if res is None else (1 if res is TestResult.FAIL else (2 if res is TestResult.ERROR else 3))) == tapres(__seq, __i)",
+                                           "len(self.results) <= __i",
+                                           "implies(res is not None and res is TestResult.FAIL, anybadres(self.results, len(self.results)))"],
+                                locals={'res': Opt(TR), 'warnings': List(Event)})},
+                 method_effects={'parse_async': {'returns': Seq(Event), 'raises': []}, 'log_subtest': []}, opaque_classes=['TAPParser'],
+                 modifies=['self.results', 'self.additional_error'], floor=6,
+                 uses=[('L18.tapres_iff_anybad', {'evs': '*', 'n': '*'}), ('L18.anybadres_prefix', {'rs': '*', 'x': '*', 'n': '*'})],
+                 note='after the loop the provisional result is ERROR / FAIL / none according to the LAST deciding event, hence set iff some event was an error, a bail-out or a bad subtest (L18.tapres_iff_anybad)')
+    REG.contract('C18', M, 'TestRunTAP.parse', variant='all-skipped-rule', region=('If', 'all((t.result is TestResult.SKIP'),
+                 params={'self': RunS, 'res': Opt(TR)},
+                 requires=["implies(res is not None and res is TestResult.FAIL, anybadres(self.results, len(self.results)))"],
+                 ensures=["implies(res is TestResult.ERROR, final('res') is TestResult.ERROR)",
+                          "implies(res is not None and res is TestResult.FAIL, final('res') is TestResult.FAIL)",
+                          "implies(res is None, (final('res') is None) or final('res') is TestResult.SKIP)"],
+                 floor=3, uses=[('L18.allskip_not_anybadres', {'rs': 'self.results', 'n': 'len(self.results)'})],
+                 note='the all-subtests-skipped rule never overrides an error or a failure: it can only turn "no verdict yet" (or a skip) into SKIP')
+    REG.contract('C18', M, 'TestRunTAP.parse', variant='final-assignment', region=('If', 'self.res == TestResult.RUNNING'),
+                 params={'self': RunS, 'res': Opt(TR)}, modifies=['self.res'],
+                 ensures=["implies(res is not None and self.res is TestResult.RUNNING, new(self).res is res)",
+                          "implies(res is None or self.res is not TestResult.RUNNING, new(self).res is self.res)"],
+                 floor=2, note='the verdict of the fold is stored unless the run already has a final result (timeout, interrupt)')
+except ImportError:      # pragma: no cover
+    pass
